@@ -94,7 +94,7 @@ def replay(case):
     fns = {'lie': ode.lie_splitting, 'strang': ode.strang_splitting, 'yoshida': ode.yoshida_splitting,
            'kahan_li': ode.kahan_li_splitting}
     plan = {'lie': (1 / 64, 4), 'strang': (1 / 32, 4), 'yoshida': (1 / 16, 2), 'kahan_li': (1 / 4, 2)}
-    kind = ('cplx-realstate' if cfg['xr'] else 'cplx') if cfg['herm'] else 'real'
+    kind = ('hermitian-generator' if cfg.get('imag') else 'cplx-realstate' if cfg['xr'] else 'cplx') if cfg['herm'] else 'real'
     out = []
     for name, f in fns.items():
         word = isl['words'][name]
@@ -132,7 +132,7 @@ def replay(case):
                 if p < isl['orders'][name] - 0.7:
                     out.append(('%s:order:%s' % (name, kind), 'measured convergence order %.2f (errors %.2e -> %.2e), expected %d' % (
                         p, e1, e2, isl['orders'][name])))
-            if cfg['herm']:
+            if cfg['herm'] and not cfg.get('imag'):
                 nr = [np.linalg.norm(contract(t.cores)) for t in sol]
                 if max(abs(v - nr[0]) for v in nr) > 1e-9 * nr[0]:
                     out.append(('%s:norm_preserved' % name, '2-norm not preserved for a skew-Hermitian generator: %r' % (nr,)))
